@@ -285,9 +285,6 @@ Example keyprefix_not_idempotent_outside_domain :
                   apply_call st1 (C_SetGlobalKeyMapPrefix (s"ab")) = Some st2 /\
                   g_textK st1 = s"abtext" /\ g_textK st2 = s"abbtext".
 Proof.
-  destruct (apply_call gstate0 (C_SetGlobalKeyMapPrefix (s"ab"))) as [st1|] eqn:E1; [|vm_compute in E1; discriminate E1].
-  destruct (apply_call st1 (C_SetGlobalKeyMapPrefix (s"ab"))) as [st2|] eqn:E2;
-    vm_compute in E1; injection E1 as E1; subst st1; vm_compute in E2; [|discriminate E2].
-  injection E2 as E2. subst st2.
-  eexists. eexists. split; [reflexivity|]. split; [reflexivity|]. split; reflexivity.
+  exists (map_keys (rekey (s"ab")) gstate0), (map_keys (rekey (s"ab")) (map_keys (rekey (s"ab")) gstate0)).
+  split; [vm_compute; reflexivity|]. split; [vm_compute; reflexivity|]. split; vm_compute; reflexivity.
 Qed.
